@@ -60,6 +60,12 @@ def init_absl():
         flags.FLAGS(["verif"])
     except flags.Error:
         pass
+    from absl import logging as absl_logging
+
+    absl_logging.set_verbosity(absl_logging.FATAL)
+    import logging
+
+    logging.getLogger().setLevel(logging.CRITICAL)
     _ABSL_DONE = True
 
 
